@@ -724,7 +724,10 @@ class Gen:
             body.append(("return", self.expr(sc, 2, False)))
         elif r.random() < 0.3:
             self.P.features.add("early_return")
-            body.insert(r.randint(0, len(body)), ("if", [(self.cond(sc), [("return", None)])], None))
+            # the test may stand anywhere in the body: it reads only what is assigned on entry
+            # (parameters and the globals initialised before the first call), never a local defined further down
+            sc_entry = dict(sc, readable=list(f.locals[:f.nparams]) + gread, writable=[])
+            body.insert(r.randint(0, len(body)), ("if", [(self.cond(sc_entry), [("return", None)])], None))
         f.body = body
         return f
 
